@@ -13,6 +13,8 @@
 (*                  ECMA arrays, any non-zero boolean byte)                *)
 (*     class bad    an unsupported marker at a value position              *)
 (*     class trunc  a strict prefix of a reference encoding of `intent`    *)
+(*     class ref    an encoding printed by TLC from Gen_Amf0 (S2)          *)
+(*     class refcut a strict prefix of such an encoding                    *)
 (*     DEC  result must be what the bytes denote / an error / an error or  *)
 (*          a truncation-prefix respectively                        [C12]  *)
 (* A harness encoding that the reference decoder does not read back as the *)
@@ -61,6 +63,18 @@ DecStep ==
             THEN Say("TOOL", "harness reference encoding is not read back as its intent by the reference decoder")
             ELSE IF ~IsOk(Ev.res) THEN Say("DEC", "decoder rejected a conformant encoding: " \o Ev.res)
             ELSE IF ~SeqEq(NormSeq(Ev.vals), ref.vs) THEN Say("DEC", "decoder returned a different value than the encoding denotes")
+            ELSE TRUE
+      [] Ev.class = "ref" ->        \* bytes printed by TLC from the reference encoder (Gen_Amf0)
+            IF ~ref.ok THEN Say("TOOL", "generated reference encoding is rejected by the reference decoder")
+            ELSE IF ~IsOk(Ev.res) THEN Say("DEC", "decoder rejected a conformant encoding: " \o Ev.res)
+            ELSE IF ~SeqEq(NormSeq(Ev.vals), ref.vs) THEN Say("DEC", "decoder returned a different value than the encoding denotes")
+            ELSE TRUE
+      [] Ev.class = "refcut" ->     \* a strict prefix of such an encoding (Ev.full)
+            LET full == DecAll(Ev.full) IN
+            IF ~full.ok THEN Say("TOOL", "generated reference encoding is rejected by the reference decoder")
+            ELSE IF ~IsOk(Ev.res) THEN TRUE
+            ELSE IF ref.ok /\ ~SeqEq(NormSeq(Ev.vals), ref.vs) THEN Say("DEC", "decoder returned a different value than the (cut at a value boundary) encoding denotes")
+            ELSE IF ~TruncRel(NormSeq(Ev.vals), full.vs) THEN Say("DEC", "truncated encoding decoded to data that was not there")
             ELSE TRUE
       [] Ev.class = "bad" ->
             IF ref.ok \/ ref.why # "unsupported marker"
